@@ -164,6 +164,10 @@ type Opts struct {
 	// struct is reused for several calls; 0: a fresh pre-filled struct.
 	InfoSlot int  `json:"infoslot,omitempty"`
 	CB       bool `json:"cb,omitempty"`
+	// CBPanic: the callback panics the first time it is called (callbacks are
+	// user code too). What Invoke then returns is not covered by a property;
+	// the state left behind is (C02: what completed stays completed).
+	CBPanic bool `json:"cbpanic,omitempty"`
 	// nil / empty arguments to option constructors (accepted no-ops):
 	// FillProvideInfo(nil) etc., WithProviderCallback(nil) etc., dig.As()
 	InfoNil bool   `json:"infonil,omitempty"`
@@ -294,7 +298,11 @@ func (o *Opts) Short() string {
 		}
 	}
 	if o.CB {
-		parts = append(parts, "Callback")
+		if o.CBPanic {
+			parts = append(parts, "Callback!panics")
+		} else {
+			parts = append(parts, "Callback")
+		}
 	}
 	if o.InfoNil {
 		parts = append(parts, "Info(nil)")
